@@ -1,9 +1,10 @@
 import UtilModel.Core.Driver
 import UtilModel.Promise.Model
+import UtilModel.Promise.Monitors
 /-! Development driver for this component only: `lake env lean --run UtilModel/Promise/TestDriver.lean promise < hist` -/
 open UtilModel
 
 def main (args : List String) : IO UInt32 :=
   driverMain [
-    mkEntry "promise" Promise.model Promise.Obs.parse [] (cap := 3000)
+    mkEntry "promise" Promise.model Promise.Obs.parse Promise.promiseMons (cap := 2000)
   ] args
